@@ -232,7 +232,7 @@ impl<'a> Gen<'a> {
             6,  // 4 alias
             12, // 5 nested assignment
             8,  // 6 do-block shadow
-            6,  // 7 call shadow
+            10, // 7 call shadow
             6,  // 8 callback assigns
             14, // 9 builtin on bound
             5,  // 10 output
@@ -394,10 +394,28 @@ impl<'a> Gen<'a> {
                     0 => (Stmt::Expr(call(lam(&[&p], bin("+", id(&p), num(1))), vec![num(5)])), "call-shadow-param"),
                     1 => {
                         let q = self.any_name();
-                        (Stmt::Expr(call(lam(&[&p], E::Assign(q, Box::new(id(&p)))), vec![num(3)])), "call-body-assigns")
+                        // the argument is a literal, or the caller's binding of the same name
+                        let arg = if self.rng.chance(1, 2) { id(&p) } else { num(3) };
+                        (Stmt::Expr(call(lam(&[&p], E::Assign(q, Box::new(id(&p)))), vec![arg])), "call-body-assigns")
                     }
                     _ => match self.bound_of(&[Ty::Fun]) {
-                        Some(f) => (Stmt::Expr(call(id(&f), vec![self.small_num()])), "call-bound"),
+                        Some(f) => {
+                            // argument forms: a literal, or a bound name (often spelled like a
+                            // parameter: x n a b k), or an expression over one
+                            let arg = match self.rng.below(4) {
+                                0 => self.small_num(),
+                                1 => match self.bound_any() {
+                                    Some(n) => id(&n),
+                                    None => self.small_num(),
+                                },
+                                2 => id(*self.rng.pick(&["a", "b", "x", "n", "k"])),
+                                _ => match self.bound_any() {
+                                    Some(n) => bin("+", id(&n), num(0)),
+                                    None => self.small_num(),
+                                },
+                            };
+                            (Stmt::Expr(call(id(&f), vec![arg])), "call-bound")
+                        }
                         None => (Stmt::Expr(call(lam(&[&p], id(&p)), vec![num(1)])), "call-shadow-param"),
                     },
                 }
@@ -1164,6 +1182,7 @@ pub fn cli_cross_check(sc: &Scenario, ex: &Exec) -> Option<Viol> {
         out_suffix: "out.json".into(),
         aslr_off: false,
         out_path: None,
+        extra_env: vec![],
     };
     let rr = crate::cli::run_cli(&cli, &crate::c19::shim_path(), &inv);
     let stmt = prefix - 1;
